@@ -56,6 +56,8 @@ pub struct Chan {
     /// extra one-way latency applied to segments written into this channel
     pub latency_ms: u64,
     pub jitter_ms: u64,
+    /// extra delay for the next write only (a reply that is held up)
+    pub hold_next_ms: u64,
 }
 
 pub type ChanRef = Arc<Mutex<Chan>>;
@@ -342,7 +344,8 @@ impl SimPhys for SimSocket {
             } else {
                 0
             };
-            (o.latency_ms + jitter, o.fail_next_write.take(), o.closed)
+            let hold = std::mem::take(&mut o.hold_next_ms);
+            (o.latency_ms + jitter + hold, o.fail_next_write.take(), o.closed)
         };
         if let Some(kind) = fail {
             return Poll::Ready(Err(io::Error::new(kind, "sim: injected write error")));
